@@ -102,6 +102,7 @@ func (e *Eval) evalLoop(fr *frame, h *ssa.BasicBlock, body map[*ssa.BasicBlock]b
 	}
 	savedRets := len(fr.rets)
 	passes := 0
+	lastSolved := false
 	for {
 		passes++
 		e.Events, e.Calls, e.Exits, e.Notes, e.Loops = e.Events[:evMark], e.Calls[:callMark], e.Exits[:exitMark], e.Notes[:noteMark], e.Loops[:loopMark]
@@ -143,6 +144,7 @@ func (e *Eval) evalLoop(fr *frame, h *ssa.BasicBlock, body map[*ssa.BasicBlock]b
 		e.evalHeader(fr, h, st, lp)
 		headerOut = st.clone()
 		T, contSucc, exitSucc, solved := e.tripCount(fr, h, body, lp)
+		lastSolved = solved
 		lp.T = T
 		info.T = T
 		if !solved {
@@ -522,7 +524,13 @@ func (e *Eval) evalLoop(fr *frame, h *ssa.BasicBlock, body map[*ssa.BasicBlock]b
 	if breakLike {
 		// the loop can also be left from inside its body into code shared with the normal exit:
 		// nothing defined in the header has a single value there
-		e.event("P5", Undecided, h.Instrs[0], "loop in %s is left from inside its body into the code after it (break): not summarised", fr.fn.Name())
+		if lastSolved {
+			// the header test alone bounds the number of iterations; leaving early only shortens
+			// the run.  What the loop computed is unknown afterwards (below), termination is not.
+			e.event("", Discharged, h.Instrs[0], "loop in %s can also be left from inside its body (break): its results are not summarised", fr.fn.Name())
+		} else {
+			e.event("P5", Undecided, h.Instrs[0], "loop in %s is left from inside its body into the code after it (break): not summarised", fr.fn.Name())
+		}
 		for _, in := range h.Instrs {
 			if v, ok := in.(ssa.Value); ok {
 				fr.env[v] = e.topOf(v.Type(), "after a loop with break")
@@ -706,6 +714,92 @@ func (e *Eval) tripCount(fr *frame, h *ssa.BasicBlock, body map[*ssa.BasicBlock]
 	}
 	e.event("P5", Discharged, ifi, "loop in %s: %d iterations", fr.fn.Name(), T)
 	return T, cont, exit, true
+}
+
+// structurallyCounting decides termination of a loop from its shape alone (no abstract
+// values): the header test compares a counter — a header φ whose every in-loop edge is
+// φ±c, or that φ±c itself — with a bound that cannot change while the loop runs, the
+// counter moves towards the bound, and the step is 1 (or the bound is a constant, so the
+// counter cannot wrap around before reaching it).
+func structurallyCounting(h *ssa.BasicBlock, body map[*ssa.BasicBlock]bool) bool {
+	ifi, ok := h.Instrs[len(h.Instrs)-1].(*ssa.If)
+	if !ok || len(h.Succs) != 2 {
+		return false
+	}
+	contWhen := true
+	if !body[h.Succs[0]] {
+		contWhen = false
+		if !body[h.Succs[1]] {
+			return false
+		}
+	}
+	neg := false
+	cv := ifi.Cond
+	for {
+		u, ok := cv.(*ssa.UnOp)
+		if !ok || u.Op != token.NOT {
+			break
+		}
+		neg = !neg
+		cv = u.X
+	}
+	b, ok := cv.(*ssa.BinOp)
+	if !ok {
+		return false
+	}
+	op := b.Op
+	if neg != !contWhen {
+		op = negOp(op)
+	}
+	// step of a counter value: the φ itself or φ+c computed in the header
+	counter := func(v ssa.Value) (step int64, ok bool) {
+		phi, isPhi := v.(*ssa.Phi)
+		if !isPhi {
+			if bo, isBin := v.(*ssa.BinOp); isBin {
+				if p, ok := bo.X.(*ssa.Phi); ok && p.Block() == h {
+					if _, isC := intConst(bo.Y); isC && (bo.Op == token.ADD || bo.Op == token.SUB) {
+						phi = p
+					}
+				}
+			}
+		}
+		if phi == nil || phi.Block() != h {
+			return 0, false
+		}
+		var st int64
+		n := 0
+		for i, p := range h.Preds {
+			if !body[p] {
+				continue
+			}
+			c, ok := stepOf(phi.Edges[i], phi)
+			if !ok || c == 0 || (n > 0 && c != st) {
+				return 0, false
+			}
+			st = c
+			n++
+		}
+		return st, n > 0
+	}
+	try := func(iv, bound ssa.Value, op token.Token) bool {
+		step, ok := counter(iv)
+		if !ok || !loopInvariant(bound, body) {
+			return false
+		}
+		_, constBound := intConst(bound)
+		switch op {
+		case token.LSS:
+			return step == 1 || (step > 0 && constBound)
+		case token.LEQ:
+			return step > 0 && constBound
+		case token.GTR:
+			return step == -1 || (step < 0 && constBound)
+		case token.GEQ:
+			return step < 0 && constBound
+		}
+		return false
+	}
+	return try(b.X, b.Y, op) || try(b.Y, b.X, flipOp(op))
 }
 
 // countsToInvariant: `iv op bound` is the continue condition, iv moves by exactly one per
